@@ -72,6 +72,11 @@ def body(chk):
     for j, (nth, consume) in enumerate([(1, 0.5), (2, 0.5), (2, 0.0), (3, 0.25), (1, 1.0), (4, 0.5)]):
         cases.append(dict(kind=("signal", "processed")[j % 2], sample=("C*8", "IU2")[j % 2], images=[("HH", None, 16, 3)], rpc=4, seed=chk.seed + 21000 + j,
                           fss=["vtrace"], sels=[("all",), ("slice", 8, 16, 1), ("slice", 1, 15, 3)], origin="transient-fault", flaky_load=dict(nth=nth, consume=consume)))
+    # a memory-limited process: a request for a whole group of lines cannot be allocated (MemoryError) while small requests can: the load
+    # may raise, it must never return other bytes than the file's
+    for j, (rpc, lim) in enumerate([(8, 1000), (16, 600), (1024, 2000), (4, 500)]):
+        cases.append(dict(kind=("processed", "signal")[j % 2], sample=("IU2", "C*8")[j % 2], images=[("HH", None, 16, 3)], rpc=rpc, seed=chk.seed + 22000 + j,
+                          fss=["vtrace"], sels=[("slice", 2, 5, 1), ("all",), ("int", 7)], origin="memory-limited", bigread_limit=lim))
     # one batched TLC layout export for everything the workers need
     L.tables()
     want = [dict(L.SMALL_LEADER), dict(L.SMALL_LEADER, nmap=0), dict(file="volume", nfp=3), dict(file="trailer", nlow=0, lens=[])]
